@@ -170,6 +170,10 @@ def obligations(ctx, cfg):
     obs = [StreamingDelete(), UnaryDelete(), sd,
            ConsumerRace(ctx, 'C12.d-race-pull-delete', ['pull'], ['delete'], n_out=0, n_back=0),
            ConsumerRace(ctx, 'C12.d-race-stream-delete', ['stream'], ['delete'], n_out=0, n_back=0)]
+    # C12.c relies on: while a handle to the topic exists, the topic actor answers RemoveSubscription (so SubscriptionActor::delete
+    # gets past its first await and reaches notify_deleted).  That is a property of the topic actor's loop:
+    from props.C07 import TopicActorLoop
+    obs += [TopicActorLoop(ctx, v, 'C12.e-topic-actor-serves') for v in ('Delete', 'RemoveSubscription')]
     if cfg['tier'] == 'thorough':
         obs += [ConsumerRace(ctx, 'C12.d-race-pull-post-delete', ['pull'], ['post', 'delete'], n_out=0, n_back=0),
                 ConsumerRace(ctx, 'C12.d-race-stream-post-delete', ['stream'], ['post', 'delete'], n_out=0, n_back=0),
